@@ -17,6 +17,7 @@ reg(Spec(
         "component names are abstracted to numbers; the Go map is an association list without duplicate keys",
         "one GenericSyncMap method call = one critical section (checked: the request's lock trace must be [Len; Iterate])",
         "WaitForReady's select is modelled as the sequence of arms taken; wall-clock polling is observed, not proved",
+        "overlapping registrations / ready-marks (one paused before each of its lock acquisitions while others run completely): IsReady, a WaitForReady started afterwards (watched 5 ms when it must not complete, 2 s when it must) and /readyz must all be the sequential model's answers for ONE order of the overlapping calls; oracle only, no Coq case files",
         "daemon wiring: C18 is read as a statement about registered component NAMES; 'named-pipe-processor' is registered twice and marked by both pipe ingesters, so readiness needs the audit processor and at least ONE ingester (C18_daemon_ready_needs: an observation, reported, not raised)",
     ],
     modelled=["internal/health/health.go (AddReadiness, OnReady, IsReady, GetReadyzStatusMap, readyzHandler, WaitForReady)",
@@ -130,7 +131,7 @@ reg(Spec(
         "bufio.Reader.ReadString is library code: its contract (bytes up to and including the first delimiter; at end of stream the remaining bytes with io.EOF) is stated as read_string and exercised through a real FIFO, not proved",
         "the chunks of the model are the pieces in which bytes arrive at the reader; C12_chunk_independent makes the outcome independent of them, so the writer's partition can stand in for the kernel's/bufio's read partition",
         "the callback's verdict is a function of (call index, record); the identity of its error is abstracted to the index of the failing call (harness: the returned error must be == the sentinel)",
-        "context cancellation and open(2) failures of Ingest are outside C12 (see C13)",
+        "what Ingest does on cancellation and on open(2) failures is outside C12 (see C13) - except that a callback error is to be returned unchanged also when the context was cancelled before the callback returned it (by the callback or by another goroutine; the close-on-cancel goroutine has closed the file or not: harness cases 'cancel', oracle and model unchanged by them)",
     ],
     modelled=["ingesters/namedpipe/namedpipeingester.go (Ingest loop)", "ingesters/syslog/syslogingester.go (ParseSyslogMessage)"],
     extra_targets=["Model/FramingCheck.vo", "Model/SyslogCheck.vo"],
@@ -193,7 +194,8 @@ reg(Spec("C13", "Props/C13.v", harness="workers", overlay={},
       "a worker is a set of goroutines each Running | BlockedAt row | Joining | Returned; one scheduled step runs a goroutine to its next blocking operation",
       "Go's random select may prefer another ready arm over ctx.Done() at most K times (theorem for every K; bound 2K+4 fair rounds)",
       "guarded flags for ReadString/OpenFile are idioms recognised by go2v; that close(2) unblocks read(2) and wall-clock time are observed by the harness (bound 2 s), not proved",
-      "the leaked opener goroutine and a Maintain() call in flight while Read closes the reassembler are not modelled"],
+      "the leaked opener goroutine and a Maintain() call in flight while Read closes the reassembler are not modelled",
+      "'its context' of the sshd-side worker is the context handed to Ingest / Process / ProcessSshdLogEntry, not the one NewSshdProcessor was configured with (scenarios child-ctx/*: only the former is cancelled); on the built binary it is the errgroup's context, cancelled by a sibling's failure while the process context lives on (sibling-failure/*: racy, repeated 5/12/20 times per variant)"],
     modelled=WORKERS_MODELLED))
 reg(Spec("C08", "Props/C08.v", harness="workers", overlay={},
     args_quick=["-prop", "C08"],
